@@ -209,6 +209,14 @@ func RunCase(line string) (impl, fail, sig string, err error) {
 		impl = runImpl(p)
 		_, fail, sig, _ = verdict(p, impl)
 		return impl, fail, sig, nil
+	case "privw":
+		if len(items) != 4 {
+			return "", "", "", errors.New("privw case: want 4 items")
+		}
+		a1, _ := vlib.AsAtom(items[1])
+		a2, _ := vlib.AsAtom(items[2])
+		a3, _ := vlib.AsAtom(items[3])
+		return privwCase(a1, a2, a3)
 	case "bias":
 		if len(items) != 3 {
 			return "", "", "", errors.New("bias case: want 3 items")
@@ -392,6 +400,7 @@ func wellFormed(r *vlib.Rand, c *gcfg, withSubrs int, deep bool, bigTables bool)
 func Gen(run *vlib.Run, seed uint64, tier string) {
 	run.Rule = "Type 2 charstring with subroutine tables and widths; non-trivial = the specification rejects it, or it has at least 3 path/mask commands, or stems, or a subroutine call; distinct by (code, tables, widths)"
 	r := vlib.NewRand(seed)
+	genPrivw(run)
 	plain := &gcfg{arith: 0, frac: 15}
 	arith := &gcfg{arith: 18, frac: 15}
 	heavy := &gcfg{arith: 60, frac: 30}
